@@ -25,8 +25,9 @@ def extra(rng, quick):
             k += 1
             if quick and k % 2:
                 continue
-            cases.append(dict(C=base(12 if k % 3 == 0 else 3 + k % 5), opt=dict(o, seed=rng.randrange(1000), tracked=_solve.TRACKED[k % 4], aux=aux,
-                                                                                 shard=bool(aux in ("obs", "both") and k % 2))))
+            oo = _solve.set_lkind(dict(o, seed=rng.randrange(1000), tracked=_solve.TRACKED[k % 4], aux=aux, shard=bool(aux in ("obs", "both") and k % 2)),
+                                  ["ode", "statio", "nonstatio"][(k // 2) % 3], k)
+            cases.append(dict(C=base(12 if k % 3 == 0 else 3 + k % 5), opt=oo))
     # real optimizers: loop structure only (which entries are written, batches, step counters, returned generator)
     for oname in ("sgd", "adam", "chain"):
         for n in ((1, 3, 7) if quick else (1, 2, 3, 5, 7, 12)):
@@ -97,9 +98,10 @@ def both_legs(tier, seed):
 
 def run(tier, seed):
     return _solve.run(
-        "C07", tier, seed, select=select, extra_cases=extra, needs=["resumed", "non_decoded_optimizers", "with_aux", "sharded_loop"], extra_leg=both_legs,
+        "C07", tier, seed, select=select, extra_cases=extra, needs=["resumed", "non_decoded_optimizers", "with_aux", "sharded_loop", "pde_losses"], extra_leg=both_legs,
         rule="MC: Solve.tla (RunsExactlyN, HistoryIsReferenceLoop, HistoryLengths, Terminates); replay: scenarios without stop/fault from "
-             "TLC's emission + driver families: epoch wrap (12 iterations), batch sizes dividing / not dividing / equal to n, parameter and "
+             "TLC's emission, realised as ODE / stationary-PDE (2-D) / non-stationary-PDE (cartesian time x space batches) training problems, "
+             "+ driver families: epoch wrap (12 iterations), batch sizes dividing / not dividing / equal to n, parameter and "
              "observation generators (their batches decoded from the loss terms), tracked-parameter specs, sgd/adam/chained-schedule "
              "optimizers (loop structure: entries written, batches, step counters, returned generator), resumed runs; the loss history "
              "decodes to (parameter version, batch ids) and is compared with the reference draw sequence obtained outside solve; "
